@@ -9,6 +9,7 @@
 //!    process watched by the parent (a hang is reported as `status=hang`).
 use crate::art::vec_graph;
 use crate::util::*;
+use dsi_bitstream::prelude::BE;
 use dsi_progress_logger::prelude::*;
 use epserde::prelude::*;
 use predicates::prelude::*;
@@ -211,7 +212,12 @@ fn gen_sym_graph(rng: &mut Rng, n: usize) -> (String, Graph) {
     (kind.to_string(), g)
 }
 
+fn gamma_of(p: (usize, usize)) -> f64 {
+    p.0 as f64 * (0.5_f64).powf(p.1 as f64)
+}
+
 struct RunCase {
+    gpairs: Vec<(usize, usize)>,
     n: usize, kind: String, g: Graph, gammas: Vec<f64>, seed: u64, gran: (u8, usize), t: usize, t2: usize,
     pred: usize, maxupd: usize, funcperm: bool, entry: usize,
 }
@@ -220,20 +226,22 @@ fn gen_run_case(seed: u64, i: usize, maxn: usize) -> RunCase {
     let mut base = Rng::new(seed ^ 0x11F0);
     let mut rng = Rng(base.next() ^ (i as u64 + 1).wrapping_mul(0xD6E8FEB86659FD93));
     let n = match rng.below(20) {
-        0 => 1, 1 => 2, 2 => 3,
+        0 => if rng.chance(1, 3) { 0 } else { 1 }, 1 => 2, 2 => 3,
         3..=12 => rng.range(2, 16),
         13..=18 => rng.range(2, maxn.max(2)),
         _ => rng.range(maxn.max(2), 6 * maxn.max(2)),
     };
     let (kind, g) = gen_sym_graph(&mut rng, n);
     let ng = rng.range(1, 5);
-    let pool = [0.0, 1.0, 0.5, 0.25, 0.125, 1.0 / 64.0, 1.0 / 1024.0, 2.0, 8.0];
-    let mut gammas: Vec<f64> = (0..ng).map(|_| rng.pick(&pool)).collect();
-    if rng.chance(1, 2) { gammas.sort_by(|a, b| a.total_cmp(b)); }
+    // gammas as (numerator, exponent) pairs of the command-line syntax "num-exp" = num * 2^-exp
+    let pool: [(usize, usize); 9] = [(0, 0), (1, 0), (1, 1), (1, 2), (1, 3), (1, 6), (1, 10), (2, 0), (8, 0)];
+    let mut gpairs: Vec<(usize, usize)> = (0..ng).map(|_| rng.pick(&pool)).collect();
+    if rng.chance(1, 2) { gpairs.sort_by(|a, b| gamma_of(*a).total_cmp(&gamma_of(*b))); }
+    let gammas: Vec<f64> = gpairs.iter().map(|&p| gamma_of(p)).collect();
     let gran = (rng.below(2) as u8, rng.pick(&[1usize, 2, 3, 10, 100, 100000]));
     RunCase {
-        n, kind, g, gammas, seed: rng.next(), gran, t: rng.range(1, 16), t2: rng.range(1, 16),
-        pred: rng.below(5), maxupd: rng.pick(&[1usize, 2, 3, 10, 100]), funcperm: rng.chance(2, 3), entry: rng.below(2),
+        gpairs, n, kind, g, gammas, seed: rng.next(), gran, t: rng.range(1, 16), t2: rng.range(1, 16),
+        pred: rng.below(5), maxupd: rng.pick(&[1usize, 2, 3, 10, 100]), funcperm: rng.chance(2, 3), entry: rng.pick(&[0usize, 0, 1, 1, 2]),
     }
 }
 
@@ -253,8 +261,36 @@ fn run_one(c: &RunCase, i: usize, out: &mut impl Write) {
         c.seed, c.gammas.iter().map(|x| x.to_string()).collect::<Vec<_>>().join(","), fmt_lists(&c.g));
     writeln!(out, "# start r{i} {head}").unwrap();
     out.flush().unwrap();
-    let path = dir.path().to_path_buf();
+    // what the stored labelings are indexed by: the command line sorts the gammas
+    let mut gammas = c.gammas.clone();
+    if c.entry == 2 { gammas.sort_by(|a, b| a.total_cmp(b)); }
+    let cli_perm = dir.path().join("cli.perm");
+    let cli_perm2 = dir.path().join("cli2.perm");
+    let wd = if c.entry == 2 { dir.path().join("wd") } else { dir.path().to_path_buf() };
+    std::fs::create_dir_all(&wd).unwrap();
+    let path = wd.clone();
     let run = || -> anyhow::Result<Option<Box<[usize]>>> {
+        if c.entry == 2 {
+            // the command-line entry points: webgraph run llp / llp-combine on a BvGraph on disk
+            let base = dir.path().join("g");
+            BvComp::with_basename(&base).comp_graph::<BE>(&vg)?;
+            let b = base.to_string_lossy().to_string();
+            webgraph_cli::cli_main(["webgraph", "build", "ef", &b])?;
+            webgraph_cli::cli_main(["webgraph", "build", "dcf", &b])?;
+            let mut a: Vec<String> = ["webgraph", "run", "llp", &b, &cli_perm.to_string_lossy(), "--work-dir", &wd.to_string_lossy(),
+                "--fmt", "ascii", "--num-threads", &c.t.to_string(), "--seed", &c.seed.to_string(),
+                "--max-updates", &c.maxupd.to_string()].iter().map(|x| x.to_string()).collect();
+            a.push("--gammas".into());
+            a.push(c.gpairs.iter().map(|(n, e)| format!("{n}-{e}")).collect::<Vec<_>>().join(","));
+            a.push(if c.gran.0 == 0 { "--node-granularity".into() } else { "--arc-granularity".into() });
+            a.push(c.gran.1.to_string());
+            if !c.funcperm { a.push("--no-perm".into()); }
+            match c.pred { 3 => a.push("--modified".into()), 4 => { a.push("--perc-modified".into()); a.push("10".into()); } _ => {} }
+            webgraph_cli::cli_main(a)?;
+            webgraph_cli::cli_main(["webgraph", "run", "llp-combine", &wd.to_string_lossy(), &cli_perm2.to_string_lossy(),
+                "--fmt", "ascii", "--num-threads", &c.t2.to_string()])?;
+            return Ok(None);
+        }
         let dcf = vg.build_dcf();
         let mut pred = MaxUpdates::from(c.maxupd).boxed();
         match c.pred {
@@ -285,20 +321,20 @@ fn run_one(c: &RunCase, i: usize, out: &mut impl Write) {
     let mut stored: Vec<Vec<usize>> = Vec::new();
     let mut costs: Vec<f64> = Vec::new();
     let mut rstatus = "ok".to_string();
-    for j in 0..c.gammas.len() {
-        let p = dir.path().join(format!("labels_{j}.bin"));
+    for j in 0..gammas.len() {
+        let p = wd.join(format!("labels_{j}.bin"));
         let l = unsafe { <LabelsAndGamma<Vec<usize>>>::load_full(&p) };
         let gc = unsafe { f64::load_full(p.with_extension("gap")) };
         match (l, gc) {
             (Ok(l), Ok(gc)) => {
-                if l.gamma.to_bits() != c.gammas[j].to_bits() { rstatus = format!("gamma-mismatch-{j}"); }
+                if l.gamma.to_bits() != gammas[j].to_bits() { rstatus = format!("gamma-mismatch-{j}"); }
                 stored.push(l.labels);
                 costs.push(gc);
             }
             (l, gc) => { rstatus = format!("missing-{j}-{}-{}", l.is_ok() as u8, gc.is_ok() as u8); break; }
         }
     }
-    let order = dir_order(dir.path());
+    let order = dir_order(&wd);
     if rstatus != "ok" {
         writeln!(out, "llprun id=r{i} {head} status=stored:{rstatus}").unwrap();
         return;
@@ -318,6 +354,12 @@ fn run_one(c: &RunCase, i: usize, out: &mut impl Write) {
     })));
     let (pstatus, rp) = status3(r);
     let (ranks, pg) = rp.unwrap_or_default();
+    let fullsame = if c.entry == 2 {
+        let rd = |p: &Path| -> Option<Vec<usize>> {
+            std::fs::read_to_string(p).ok().map(|t| t.split_whitespace().filter_map(|x| x.parse().ok()).collect())
+        };
+        if rd(&cli_perm).as_deref() == Some(&ranks[..]) && rd(&cli_perm2).as_deref() == Some(&ranks[..]) { "same" } else { "differs" }
+    } else { fullsame };
     writeln!(out, "llprun id=r{i} {head} status={} order={} costs={} stored={} full={fullsame} combined={} ranks={} pg={}",
         if pstatus == "ok" { "ok".to_string() } else { format!("permute:{pstatus}") },
         fmt_ints(&order), fmt_keys(&costs), fmt_lists(&stored), fmt_ints(&comb), fmt_ints(&ranks), fmt_lists(&pg)).unwrap();
